@@ -129,7 +129,12 @@ func (e *netEnv) listen(id uint16, drain bool) {
 	n.rec = rl
 	var l net.Listener = rl
 	n.addr = l.Addr().String()
-	in, stop := comm.ServiceConnections(l, e.p2id, common.Nolog{})
+	// odd node identifiers run their service with debug logging switched on (silent sink), even ones with it off
+	var lg comm.Logger = common.Nolog{}
+	if id%2 == 1 {
+		lg = common.DebugNolog{}
+	}
+	in, stop := comm.ServiceConnections(l, e.p2id, lg)
 	n.in, n.stop, n.drain = in, stop, drain
 	if drain {
 		go func() {
